@@ -105,13 +105,14 @@ PROPS = {
     },
     "C07": {
         "level": "proof",
-        "verus": [("prettydec", None)],
+        "verus": [("prettydec", None), ("rescale", None)],
         "kani": {"quick": [], "thorough": ["display_roundtrip_bounded"]},
         "family": ("c07", {"quick": ["5"], "thorough": ["6"]}),
         "explanation": "Verus discharges, for strings of every length, that PrettyDecimal::from_str (text extracted from /repo on this run) "
                        "returns Ok exactly for well-formed representable literals and then carries exactly the written mantissa, scale and grouping style; "
                        "all index/overflow/termination obligations of the scanner are discharged as well.",
-        "units_doc": ["core/src/syntax/pretty_decimal.rs: impl FromStr for PrettyDecimal::from_str (+closure aligned_comma)"],
+        "units_doc": ["core/src/syntax/pretty_decimal.rs: impl FromStr for PrettyDecimal::from_str (+closure aligned_comma), PrettyDecimal::{scale, rescale}",
+                      "core/src/syntax/display.rs: rescale (printing pads to the configured precision, never lowers the scale, keeps value and grouping style: also the numeric clause of C15)"],
         "assumptions": [
             "rust_decimal::Decimal::try_from_i128_with_scale: Ok iff scale<=28 and |m|<=2^96-1, then mantissa/scale as given (assumed from its source)",
             "u8::is_ascii_digit == 48..=57 (assume_specification)",
